@@ -29,11 +29,11 @@ def run(ctx):
     ctx.preload(cfgs)
     for cfg in cfgs:
         fs = ctx.facts(cfg)
-        tokenizer(ctx, cfg, fs)
-        consumers.accept_sets(ctx, cfg, fs, 'A.accept-sets')
-        strictness(ctx, cfg, fs)
-        classes(ctx, cfg, fs)
-        helpflag(ctx, cfg, fs)
+        ctx.guard(tokenizer, ctx, cfg, fs)
+        ctx.guard(consumers.accept_sets, ctx, cfg, fs, 'A.accept-sets')
+        ctx.guard(strictness, ctx, cfg, fs)
+        ctx.guard(classes, ctx, cfg, fs)
+        ctx.guard(helpflag, ctx, cfg, fs)
 
 def tokenizer(ctx, cfg, fs):
     b = ctx.look(fs.body('args::inner::State::construct'))
